@@ -135,3 +135,44 @@ func H_rendererrMsg(L int, tr bool) {
 	verifAssert(fp.File() == "f0.soy", "C19: render error does not name the file of the entry template")
 	verifAssert(fp.Line() == 4+k, "C19: render error does not point at the line of the outermost failing command")
 }
+
+func c19Boom(args []data.Value) data.Value { panic(errVerifWrite) }
+
+var c19FailBodies = []string{
+	"{$nope.x}",           // undefined data
+	"{$one|truncate:'a'}", // directive with an argument of the wrong type
+	"{length($one)}",      // function with an argument of the wrong type
+	"{verifBoom()}",       // user function panicking with an error value
+	"{$one % 0}",          // division by zero
+	"{$one|json|noSuchDirective}",
+	"{if $nope.x}a{/if}",              // failing condition
+	"{foreach $i in $one}a{/foreach}", // not a list
+}
+
+// H_rendererrKinds: the failing command sits at call depth d in another file and fails in one of
+// several ways (undefined value, directive / function given a wrong argument, a user function
+// panicking with an error value, arithmetic error, ...): the error names the entry file and the
+// line of the outermost {call}.
+func H_rendererrKinds(depth, kind int) {
+	Funcs["verifBoom"] = Func{c19Boom, []int{0}}
+	k := verifChoose(3)
+	src := "{namespace a}\n/** @param? x */\n{template .t}\n"
+	for i := 0; i < 3; i++ {
+		if i == k {
+			src += "  t{call b.d" + strconv.Itoa(depth) + " /}\n"
+		} else {
+			src += "  ok{$x}\n"
+		}
+	}
+	src += "{/template}\n"
+	other := "{namespace b}\n\n\n\n\n\n\n\n\n\n\n\n/** */\n{template .d1}\n{let $one: 1 /}\n" + c19FailBodies[kind] + "\n{/template}\n/** */\n{template .d2}\n\n{call .d1 /}\n{/template}\n"
+	tofu, cerr := verifCompileNoCheck(src, other)
+	verifAssert(cerr == nil, "harness: bundle does not compile")
+	_, err := verifRender(tofu, "a.t", data.Map{"x": data.Null{}})
+	verifAssert(err != nil, "harness: render did not fail")
+	fp := errortypes.ToErrFilePos(err)
+	verifAssert(fp != nil, "C19: render error carries no file position")
+	verifObserveInt("line", fp.Line())
+	verifAssert(fp.File() == "f0.soy", "C19: render error does not name the file of the entry template")
+	verifAssert(fp.Line() == 4+k, "C19: render error does not point at the line of the outermost failing command")
+}
